@@ -578,8 +578,8 @@ func runWorker(p *Prop, tier string, seed uint64, w int, mine []int, workDir, ra
 			}
 		}
 		werr := cmd.Wait()
-		if agg.shouldStop() && current < 0 {
-			return
+		if agg.shouldStop() {
+			return // the worker was killed by the driver (violation cap reached)
 		}
 		var rest []int
 		for _, i := range mine {
